@@ -63,6 +63,7 @@ func verifLemmaOneZeroOne(p int) int { return ZeroToOne(OneToZero(p)) }
 
 //@ func BasePositionOf
 //@   property C20
+//@   pure
 //@   requires f != nil && depth(f) < 1000
 //@   ensures [position] result0 == position + sumStart(f)
 //@   ensures [base]     result1 == baseOf(f)
@@ -91,6 +92,7 @@ func verifLemmaBasePositionAdditive(f Feature, p int) (p1 int, b1 Feature, p2 in
 
 //@ func PositionWithin
 //@   property C20
+//@   pure
 //@   requires f != nil && depth(f) < 1000
 //@   ensures [ok]   ok == within(f, ref)
 //@   ensures [pos]  ok ==> pos == position + sumTo(f, ref)
@@ -125,6 +127,7 @@ func verifLemmaPositionWithinAdditive(f, ref Feature, p int) (p1 int, ok1 bool, 
 
 //@ func BaseOrientationOf
 //@   property C20
+//@   pure
 //@   requires f != nil && depth(f) < 1000
 //@   ensures [ori]     orientable(f) ==> ori == prodOri(f) && ref == refB(f)
 //@   ensures [not-ori] !orientable(f) ==> ori == 0 && ref == refA(f)
@@ -135,6 +138,9 @@ func verifLemmaPositionWithinAdditive(f, ref Feature, p int) (p1 int, ok1 bool, 
 //@   loop 2 invariant orientable(old(f)) && orientable(f) && o == f
 //@   loop 2 invariant (ori == 1 || ori == -1) && ori * prodOri(f) == prodOri(old(f)) && refB(f) == refB(old(f))
 //@   loop 2 decreases 1000 - n
+
+// baseOriOf(f): the orientation BaseOrientationOf reports (0 when f is not orientable).
+//@ spec baseOriOf(f Feature) Orientation = orientable(f) ? prodOri(f) : 0
 
 // Multiplicativity: the base orientation of a feature is its own orientation times that of its (orientable) location.
 //@ func verifLemmaBaseOrientationMultiplicative
@@ -147,3 +153,22 @@ func verifLemmaBaseOrientationMultiplicative(f Feature) (o1 Orientation, r1 Feat
 	o2, r2 = BaseOrientationOf(f.Location())
 	return
 }
+
+// ---- OrientationWithin ------------------------------------------------------
+// oriTo(f, ref): product of the orientations from f up to (not including) ref, 0 when ref is not reached
+// through orientable features.
+//@ spec oriTo(f Feature, ref Feature) Orientation
+//@ axiom forall f Feature, ref Feature {oriTo(f, ref), locOf(f)} :: oriTo(f, ref) == (!orientable(f) ? 0 : (f == ref ? 1 : (locOf(f) == ref ? oriOf(f) : oriOf(f) * oriTo(locOf(f), ref))))
+//@ axiom forall f Feature, ref Feature {oriTo(f, ref)} :: oriTo(f, ref) == -1 || oriTo(f, ref) == 0 || oriTo(f, ref) == 1
+
+//@ func OrientationWithin
+//@   property C20
+//@   pure
+//@   requires f != nil && depth(f) < 999
+//@   ensures [nil-ref] ref == nil ==> result == 0
+//@   ensures [ori]     ref != nil ==> result == oriTo(f, ref)
+//@   loop 1 invariant 0 <= n && ref != nil && (f == nil || depth(f) + n == depth(old(f))) && (f == nil ==> n > 0 && n <= depth(old(f)) + 1)
+//@   loop 1 invariant (ori == 1 || ori == -1)
+//@   loop 1 invariant f != nil ==> ori * oriTo(f, ref) == oriTo(old(f), ref)
+//@   loop 1 invariant f == nil ==> oriTo(old(f), ref) == 0
+//@   loop 1 decreases 1000 - n
